@@ -584,6 +584,12 @@ def _sim_common(report, want_c15, want_c16):
                     continue
                 sim.run_config(conf, names, report.seed + k, is_quick, findings, counters, records)
                 k += 1
+    # test sizes that are not dyadic (0.8, 0.3, ...): the split size is not specified, the bookkeeping laws still are
+    for j, (n, ts) in enumerate([(10, (4, 5)), (15, (4, 5)), (10, (9, 10)), (20, (11, 20)), (10, (3, 10)), (12, (7, 10))]):
+        for ordered in (True, False):
+            conf = {"n": n, "ts": list(ts), "ordered": ordered, "batch": [0, 2][j % 2]}
+            small = [["eg", "ucb1"], ["radius_city", "radius_cheb"], ["ts", "radius_ts", "lsh_ts"], ["linucb", "lints"]]
+            sim.run_config(conf, small[(j + report.seed) % len(small)], report.seed + 500 + j, bool(j % 2), findings, counters, records)
     res, ok, fails = sim.validate(records)
     report.add_tlc("TraceSim/recorded-runs", res, note="%d Simulator runs, public attributes recomputed exactly" % len(records))
     missing = set(range(1, len(records) + 1)) - ok - set(fails)
